@@ -1,3 +1,4 @@
 import EdzedProofs.Basic
 import EdzedProofs.Counter
+import EdzedProofs.OutputAsync
 import EdzedProofs.Simulate
